@@ -1,6 +1,10 @@
 \* C17 thorough: the 72 cells of the matrix + every interleaving of <= 3 connections, <= 3 reloads, <= 3 uses,
 \* with and without mutual TLS (duplex scripts) + the real-server scripts: <= 3 connections (each presenting the
 \* trusted client certificate, none, or one of another CA) x <= 2 reloads x <= 2 uses, with and without mutual TLS
+\* + rotation of the client CA in place (mutual TLS; a connection presents no certificate or one of any generation of the CA):
+\*   duplex 2 connections x 2 rotations x 2 reloads x <= 1 use, real server 3 connections x 1 rotation x 2 reloads x <= 1 use
+\* + failed reloads (real server, with and without mutual TLS): 2 connections x 2 failed reloads x 2 reloads x <= 1 use
+\* + client side: 4 connections x 2 replacements of the roots file in place
 SPECIFICATION Spec
 CONSTANTS
   Mode = "swap"
@@ -12,5 +16,21 @@ CONSTANTS
   RMaxReload = 2
   RMaxUse = 2
   RealMtls = {FALSE, TRUE}
-INVARIANTS TypeOK Undisturbed Fresh ConfigKept Authenticated Emit
+  RotConn = 2
+  RotReload = 2
+  RotRotate = 2
+  RotUse = 1
+  RRotConn = 3
+  RRotReload = 2
+  RRotRotate = 1
+  RRotUse = 1
+  CliConn = 4
+  CliRotate = 2
+  FConn = 2
+  FReload = 2
+  FBotch = 2
+  FUse = 1
+  FailMtls = {FALSE, TRUE}
+  Extra = {"rot", "rrot", "client", "rfail"}
+INVARIANTS TypeOK Undisturbed Fresh ConfigKept CAFollows JudgedAsConfigured Authenticated ClientFollowsRoots Emit
 CHECK_DEADLOCK FALSE
